@@ -87,9 +87,11 @@ type epModel struct {
 	lo, hi   int
 	// new data arrived since the last transmission without completing a flight
 	pendingNew bool
-	pendingAt  time.Duration
-	loOld      int
-	hiOld      int
+	// every input pending since the last transmission was of class unknown (new or not: the harness cannot tell)
+	pendingUnknown bool
+	pendingAt      time.Duration
+	loOld          int
+	hiOld          int
 
 	timerSteps, recvd, emitted int
 	timerChecked               int
@@ -135,6 +137,7 @@ func evaluate(l law, steps []*step, dead [2]bool) evalResult {
 			cookies += cookieRequests(e.Data)
 		}
 		wasCompleted := m.completed
+		flightBefore := m.flight
 		for _, t := range s.Trace {
 			if t.State == "Finished" {
 				m.completed = true
@@ -185,6 +188,11 @@ func evaluate(l law, steps []*step, dead [2]bool) evalResult {
 				switch {
 				case m.pendingNew && (okOld || jmin >= 0):
 					m.lo, m.hi = 1, 1
+					if m.pendingUnknown && jmin >= 0 {
+						// the harness could not tell whether the pending input was new to the endpoint (a protected
+						// DTLS 1.3 record, a delivery of the released phase): the count may also simply have gone on
+						m.hi = jmax + 1
+					}
 					m.timerChecked++
 				case jmin >= 0:
 					m.lo, m.hi = jmin+1, jmax+1
@@ -219,6 +227,14 @@ func evaluate(l law, steps []*step, dead [2]bool) evalResult {
 			switch {
 			case isSend && cookies == 0:
 				switch {
+				case l.V13 && s.In == inNew && m.active && !m.post && m.flight == flightBefore:
+					// DTLS 1.3: the input was new to the endpoint (an acknowledgement of part of its flight, a
+					// further fragment of the peer's flight) and the endpoint answered by sending its CURRENT flight,
+					// or what is left of it, again. The text gives the interval after a timeout and after new
+					// data; this transmission is neither a timeout nor a new flight: the count may restart (new
+					// data arrived) or go on by one (the FSM books the transmission as a retransmission).
+					m.lo, m.hi = 0, m.hi+1
+					m.triggered++
 				case s.In == inNew || !m.active:
 					m.lo, m.hi = 0, 0
 					if s.In != inNew {
@@ -241,9 +257,14 @@ func evaluate(l law, steps []*step, dead [2]bool) evalResult {
 				if !m.pendingNew {
 					m.loOld, m.hiOld = m.lo, m.hi
 				}
+				if !m.pendingNew {
+					m.pendingUnknown = true
+				}
 				m.pendingNew, m.pendingAt = true, s.At
 				if s.In == inUnknown {
 					m.optional = true
+				} else {
+					m.pendingUnknown = false // at least one pending input is known to be new
 				}
 			}
 			// completion
